@@ -466,7 +466,7 @@ pub fn run(cfg: RunCfg) {
         "uploads to a key already held are only required not to create other keys (their content rules are C07's)".into(),
     ];
     vh_core::section!(
-        rep, "payment", (3_000, 120_000), 16,
+        rep, "payment", (9_000, 120_000), 16,
         "non-trivial: paid upload with all conditions true or exactly one false; distinct by (kind, paid, prior, condition vector, routing-table size)",
         case_strategy, check
     );
